@@ -183,6 +183,13 @@ fn threads(a: &[String]) {
     // whatever an instance builds or switches after its Nth block happens now) while all other threads keep cloning
     // and converting those same instances and use the copies
     let storm = a[3] == "storm";
+    // "coldfirst": nothing of the listed families is constructed or used by the main thread before the workers
+    // start - no shared instances, and the sequential model is evaluated only after the workers have been joined
+    // (the model is a caller like any other: evaluating it first would perform every crate's first use in the
+    // process, single-threaded). Every worker constructs and uses one instance of every listed family, in its own
+    // order: the very first uses in the process overlap, or follow one another without any synchronisation.
+    let cold = a[3] == "coldfirst";
+    let firstuse = firstuse || cold;
     let fams: Vec<&str> = a[4].split(',').collect();
     if a.get(5).map(|s| s == "grant").unwrap_or(false) {
         cpufeatures::sim::set_miri_grant(true);
@@ -248,6 +255,9 @@ fn threads(a: &[String]) {
     if reg.families[fam_idx[0]].split {
         wanted.push((fam_idx[0], Some(*rng.pick(&[Role::Enc, Role::Dec])), *rng.pick(&[0usize, 15]), None));
     }
+    if cold {
+        wanted.clear();
+    }
     for (fam, want_role, pre, want_variant) in wanted {
         let f = &reg.families[fam];
         let vi = want_variant.unwrap_or_else(|| pick_variant(&mut rng, fam));
@@ -300,6 +310,32 @@ fn threads(a: &[String]) {
         })
         .collect();
     let mut programs: Vec<Vec<TOp>> = Vec::new();
+    if cold {
+        for _ in 0..nt {
+            let mut order = fam_idx.clone();
+            for i in (1..order.len()).rev() {
+                order.swap(i, rng.below(i as u64 + 1) as usize);
+            }
+            let mut prog = Vec::new();
+            for _round in 0..nops.max(1) {
+                for &fam in &order {
+                    let f = &reg.families[fam];
+                    let vi = pick_variant(&mut rng, fam);
+                    let vs = &f.variants[vi];
+                    let role = if f.split { *rng.pick(&[Role::Both, Role::Both, Role::Enc, Role::Dec]) } else { Role::Both };
+                    let ty = vs.ty(role).unwrap();
+                    let dir = match role { Role::Enc => Dir::Enc, Role::Dec => Dir::Dec, Role::Both => *rng.pick(&[Dir::Enc, Dir::Dec]) };
+                    let kl = *rng.pick(&f.key_lens);
+                    let key = rng.bytes(kl);
+                    let shape = *rng.pick(&SHAPES);
+                    let n = if shape.single() { 1 } else { rng.range(1, 3) as usize };
+                    let data = rng.bytes(n * f.block);
+                    prog.push(TOp::NewUse { ty, key, dir, shape, data, expect: Vec::new() });
+                }
+            }
+            programs.push(prog);
+        }
+    }
     if storm {
         let dir_of = |rng: &mut Prng, t: &TypeInfo| match t.role {
             Role::Enc => Dir::Enc,
@@ -341,7 +377,7 @@ fn threads(a: &[String]) {
             programs.push(prog);
         }
     }
-    for _ in 0..(if storm { 0 } else { nt }) {
+    for _ in 0..(if storm || cold { 0 } else { nt }) {
         let mut prog = Vec::new();
         for (i, s) in shared.iter().enumerate() {
             let t = &reg.types[s.ty];
@@ -414,7 +450,7 @@ fn threads(a: &[String]) {
         }
         programs.push(prog);
     }
-    drop(expect);
+    let programs_copy: Vec<Vec<TOp>> = if cold { programs.clone() } else { Vec::new() };
 
     let shared = Arc::new(shared);
     let mut handles = Vec::new();
@@ -424,10 +460,11 @@ fn threads(a: &[String]) {
         handles.push(std::thread::spawn(move || {
             let mut slots = sim::mem::Slots::new();
             let slot = slots.alloc(0);
-            let mut events: Vec<(u64, u64, usize, usize, &'static str, Result<(), String>)> = Vec::new();
+            let mut events: Vec<(u64, u64, usize, usize, &'static str, Result<(), String>, Option<Vec<u8>>)> = Vec::new();
             for (k, op) in prog.iter().enumerate() {
                 let inv = STAMP.fetch_add(1, Ordering::Relaxed) as u64;
                 let p = slots.ptr(slot);
+                let mut stash: Option<Vec<u8>> = None;
                 let res: Result<(), String> = (|| match op {
                     TOp::NewUse { ty, key, dir, shape, data, expect } => {
                         let t = &reg.types[*ty];
@@ -437,6 +474,11 @@ fn threads(a: &[String]) {
                         let r = call_shape(t, p, *dir, *shape, data);
                         guard(|| unsafe { (t.drop)(p) })?;
                         let got = r?;
+                        if cold {
+                            // judged by the main thread after the join
+                            stash = Some(got);
+                            return Ok(());
+                        }
                         if &got != expect { Err(format!("{} {} {} got {} want {}", t.name, dir.name(), shape.name(), hex(&got), hex(expect))) } else { Ok(()) }
                     }
                     TOp::Shared { inst, dir, shape, data, expect } => {
@@ -467,7 +509,7 @@ fn threads(a: &[String]) {
                     }
                 })();
                 let ret = STAMP.fetch_add(1, Ordering::Relaxed) as u64;
-                events.push((inv, ret, tid, k, op.kind(), res));
+                events.push((inv, ret, tid, k, op.kind(), res, stash));
             }
             events
         }));
@@ -483,6 +525,20 @@ fn threads(a: &[String]) {
         }
     }
     all.sort_by_key(|e| e.0);
+    if cold {
+        // only now does the main thread evaluate the sequential model
+        for e in all.iter_mut() {
+            if let (Some(got), Some(TOp::NewUse { ty, key, dir, shape, data, .. })) = (e.6.take(), programs_copy.get(e.2).and_then(|p| p.get(e.3))) {
+                let t = &reg.types[*ty];
+                let fam = reg.family(t.family).unwrap();
+                let want = expect(fam, key, *dir, data);
+                if got != want {
+                    e.5 = Err(format!("{} {} {} constructed and used for the first time in the process by a worker thread got {} want {}", t.name, dir.name(), shape.name(), hex(&got), hex(&want)));
+                }
+            }
+        }
+    }
+    drop(expect);
     // the recorded history: merged invoke order; every response must equal the sequential model
     let mut d = Digest::default();
     let mut overlaps = 0u64;
